@@ -367,7 +367,8 @@ Definition switch (pos : Z) (prev : option N) (i : Z) (c : N) (tl : list N) (t :
     if t_escaped t then escaped_ c t
     else if t_qs t || t_qd t then add_raw c t
     else if (t_qb t =? 1)%Z then cont (set_qb (t_qb t - 1)%Z t) [AReset c]
-    else if (t_qb t =? 0)%Z then cont (set_qb (t_qb t - 1)%Z t) [AColour hl_error c]
+    else if (t_qb t =? 0)%Z then                 (* unbalanced `)`: never safe to preview (fix) *)
+      cont (set_unsafe true (set_qb (t_qb t - 1)%Z t)) [AColour hl_error c]
     else let t := if t_expect_param t then expect_param_ t else t in
          cont (set_qb (t_qb t - 1)%Z (pop_add c t)) [ARaw c]
   else if c =? 32 then (* ' ' *)
